@@ -247,6 +247,36 @@ def handles(seed):
             break
 
 
+def reentrant_release():
+    """a destructor that releases its own wrapper again (an idempotent close()): still exactly one call"""
+    base = ffi.new("int[2]")
+    for how in ("release", "with", "drop"):
+        calls = []
+        box = {}
+
+        def destructor(obj):
+            calls.append(1)
+            if len(calls) < 5 and box.get('q') is not None:
+                ffi.release(box['q'])
+        q = ffi.gc(base, destructor)
+        box['q'] = q
+        keep = (destructor, base)
+        if how == "release":
+            ffi.release(q)
+        elif how == "with":
+            with q:
+                pass
+        else:
+            box['q'] = None
+            del q
+            gc.collect()
+        if len(calls) != 1:
+            bad.append("re-entrant release (%s): the destructor ran %d times" % (how, len(calls)))
+        box.clear()
+        del keep
+
+
+reentrant_release()
 for seed in range(40):
     history_gc(seed)
     final_counts(seed)
